@@ -57,6 +57,7 @@ def build_model(rng, p_ia: float = 0.5) -> tuple[dict, dict]:  # noqa: ANN001
     spec = net.spec()
     # failure switch: a row with kz = 0 makes the injected integrator (mon.scanwrap.flaky_scipy) fail at once
     spec["components"].append({"kind": "parameter", "name": "kz", "value": 1.0})
+    spec["components"].append({"kind": "parameter", "name": "kzt", "value": 1e9})  # deadline after which the injected integrator fails
     kout = [r["k"] for r in net.rxns if r["name"] == "vout"][0]
     A0, _ = net.Ab(net.params | {kout: 0.0})
     info = {"ia": False, "params": [p for p in net.params], "variables": list(net.variables),
@@ -133,6 +134,11 @@ def oracle_row(kind: str, pristine, row: pd.Series, extra: dict):  # noqa: ANN00
     if extra.get("y0"):
         m.update_variables(extra["y0"])  # base initial values of the whole scan; the row's own values come on top
     d = row.to_dict()
+    # rows that must fail are known from the injected faults themselves, not from what the library's own result says
+    k_ = kind.split(".")[1]
+    horizon = extra["protocol"].index[-1].total_seconds() if k_ in ("protocol", "protocol_time_course") else (float(max(extra["time_points"])) if "time_points" in extra else 0.0)
+    if float(d.get("kz", 1.0)) == 0.0 or float(d.get("kzt", 1e300)) < horizon:
+        return None
     m.update_variables({k: v for k, v in d.items() if k in m.get_variable_names()})
     m.update_parameters({k: v for k, v in d.items() if k in m.get_parameter_names()})
     k = kind.split(".")[1]
@@ -194,6 +200,16 @@ def run_case(case: dict) -> dict:
         durs = rng.choice([[1.0, 1.0], [0.5, 1.5], [1.0], [0.5, 0.5, 1.0]])
         extra["protocol"] = make_protocol([(d, {pp[0]: round(rng.uniform(0.3, 2.0), 3)}) for d in durs])
         table = table[[c for c in table.columns if c != pp[0]] or list(table.columns)]
+        if len(durs) >= 2 and rng.random() < 0.4 and len(table) >= 2:
+            # rows whose integration fails in a later protocol step, after the first step succeeded (deadline parameter kzt
+            # read by the injected integrator at every call)
+            table = table.copy()
+            table["kzt"] = 1e9
+            for r in rng.sample(range(len(table)), min(len(table) - 1, rng.randint(1, 2))):
+                table.iloc[r, table.columns.get_loc("kzt")] = durs[0] + 0.25 * (float(sum(durs)) - durs[0])
+                if r not in fail_rows:
+                    fail_rows.append(r)
+            late_failures = 1
         if k == "protocol":
             extra["time_points_per_step"] = rng.randint(1, 4)
         else:
@@ -223,7 +239,7 @@ def run_case(case: dict) -> dict:
     modes += [{"parallel": True, "cores": c} for c in cores]
     viols: list[dict] = []
     counters: dict[str, int] = {f"kind:{kind}": 1, "rows": len(table), "failing_rows_planned": len(fail_rows),
-                                "with_y0": int("y0" in extra), "duplicate_row_labels": int(not table.index.is_unique), "column_overrides_assignment_defined_parameter": int(info["ia"] and "k1" in table.columns), "y0_overlaps_table_column": int(any(v in table.columns for v in extra.get("y0", {})))}
+                                "with_y0": int("y0" in extra), "rows_failing_in_a_later_protocol_step": int("late_failures" in locals()), "duplicate_row_labels": int(not table.index.is_unique), "column_overrides_assignment_defined_parameter": int(info["ia"] and "k1" in table.columns), "y0_overlaps_table_column": int(any(v in table.columns for v in extra.get("y0", {})))}
     ctx = {"kind": kind, "table": {"index": [str(i) for i in table.index], **{c: table[c].tolist() for c in table.columns}},
            "extra": {kk: (v.tolist() if hasattr(v, "tolist") else str(v)) for kk, v in extra.items()}, "ia_model": info["ia"], "spec": spec}
     # ---- oracle per row ------------------------------------------------------
